@@ -154,7 +154,17 @@ static std::string describe(PDU& p, const std::string& cls) {
         o << " re=- ser2=-";
     }
     acc = sweep(p);
-    o << " || mon=" << (mon1.empty() ? "-" : mon1) << " clone=" << clone_res << " acc=" << acc;
+    // serialize() of the SAME object once more: it stores derived fields back into the object, so a writer that does not
+    // restore what it borrowed (e.g. the IPv6 extension-header types) shows only from the second serialization on
+    std::string again = "-";
+    if (ok) {
+        bytes ser3;
+        bool ok3;
+        g_mon.clear();
+        std::string s3 = ser_or_throw(p, ser3, ok3);
+        again = (ok3 && ser3 == ser) ? std::string("same") : s3;
+    }
+    o << " || mon=" << (mon1.empty() ? "-" : mon1) << " clone=" << clone_res << " acc=" << acc << " again=" << again;
     return o.str();
 }
 
